@@ -125,7 +125,7 @@ pub async fn run_node_opts(listener: TcpListener, seq: Vec<Outcome>, log: Arc<st
             }
             Outcome::AppError => {
                 simkernel::count("fault.application_error");
-                let mut r = Frame::new(req.id, &req.query, b"nope").ec(4096);
+                let mut r = Frame::new(req.id, &req.query, b"nope").ec(pick(&[1u32, 2, 3, 4, 5, 6, 7, 7, 8, 4096, 4097, 70_000])); // any error code is a reply
                 r.body_format = 3;
                 if aio::write_all(wr, &r.encode()).await.is_err() {
                     conn = None;
